@@ -59,7 +59,7 @@ class Outcome:
 
     def brief(self):
         if self.kind == "ok":
-            return {"ok": repr(self.value)[:300]}
+            return {"ok": safe_repr(self.value)[:300]}
         if self.kind == "verr":
             return {"ValidationError": self.errors[:12]}
         return {"exception": self.exc, "msg": (self.msg or "")[:300]}
@@ -82,6 +82,13 @@ def call(fn, *a, **kw) -> Outcome:
     except Exception as e:
         return Outcome("exc", exc=type(e).__name__, msg=_safe_str(e), site=_site(e))
     return Outcome("ok", value=v)
+
+
+def safe_repr(v):
+    try:
+        return repr(v)
+    except Exception as e:
+        return f"<repr raised {type(e).__name__}: {e}>"
 
 
 def _safe_str(e):
